@@ -24,7 +24,8 @@ from checks.c48lib import hx
 
 PROPS = ["TfelVerif.C50.Props"]
 AAS = ["none", "none", "Cast3M", "Secant", "Steffensen", "IronsTuck", "UAnderson", "FAnderson"]
-STAT = None   # filled from the classification
+#: mtest sources compiled from the tree into the harness (the anchors and what they need)
+SOURCES = ["GenericSolver", "StudyCurrentState", "StructureCurrentState", "CurrentState", "SolverOptions", "Solver"]
 
 
 def site_of(name, d):
@@ -54,7 +55,7 @@ def normalise_model(line, kinds):
 
 def gen_run(rng):
     dyn = rng.random() < 0.5
-    mSub = rng.choice([3, 5, 10, 10])
+    mSub = rng.choice([4, 10, 10, 10])
     iterMax = rng.choice([3, 4, 6, 8])
     pp = rng.choice([0, 0, 1, 2])
     aa = rng.choice(AAS)
@@ -69,7 +70,7 @@ def gen_run(rng):
     minF = rng.choice([-1.0, 0.125, 0.25])
     maxF = rng.choice([-1.0, 1.5, 2.0])
     na = 120
-    pfail = rng.choice([0.0, 0.15, 0.3, 0.5])
+    pfail = rng.choice([0.0, 0.08, 0.15, 0.25, 0.35])
     atts = []
     burst = 0
     for _ in range(na):
@@ -142,7 +143,7 @@ def run(ck):
     stat = {n for n, c in classes.items() if c == "stat"}
 
     harness = c48lib.build(ck, "c50h", os.path.join(vlib.VERIF, "harness", "C50", "harness.cxx"),
-                           c48lib.MTEST_SOURCES + c48lib.ACCEL_SOURCES, extra_includes=[ck.work])
+                           SOURCES + c48lib.ACCEL_SOURCES, extra_includes=[ck.work])
     driver = ck.lean_exe("c50driver", "TfelVerif/C50/Driver.lean")
 
     # 4. (run first: it is also the failing-input search of the broken obligations)
